@@ -200,7 +200,10 @@ func cmdCheck(args []string) int {
 	if thorough {
 		timeout = 60
 	}
-	stats, _ := solveResults(results, func(o *Obligation) bool { return hasTag(o.Tags, prop) }, work, timeout, runtime.NumCPU(), thorough)
+	// every obligation of the selected functions is solved (not only the ones tagged with this property): goals
+	// are assumed once asserted, so an unproved obligation of another property must be known in order not to
+	// let it hide a failure of this property's obligations further down the same path (recheckAfterFailures)
+	stats, _ := solveResults(results, nil, work, timeout, runtime.NumCPU(), thorough)
 	agg := aggregate(obls)
 	ledger := loadLedger(filepath.Join(*verif, "ledger.json"))
 	findings := loadFindings(filepath.Join(*verif, "known_findings.txt"))
@@ -239,6 +242,17 @@ func cmdCheck(args []string) int {
 			continue
 		}
 		le, inLedger := ledger.Obligations[a.Name]
+		if !inLedger && (strings.Contains(a.Name, "#frame@") || strings.Contains(a.Name, ".frame@")) {
+			// the frame condition of a function is one obligation split per written array: an array the
+			// function did not write at all on the delivered tree has no entry of its own, but "F writes only
+			// what its modifies clause declares" was discharged there iff F's other obligations are recorded
+			for n, e := range ledger.Obligations {
+				if strings.HasPrefix(n, a.Func+"#") {
+					le, inLedger = e, true
+					break
+				}
+			}
+		}
 		changed := inLedger && le.Hash != hashes[a.Func]
 		switch a.Status {
 		case "failed":
